@@ -114,6 +114,64 @@ def coerce_chain():
     return chain
 
 
+U_ALT = "alt_methods = tuple((fact.merge(constraints).method for fact in alt_factories))"
+U_BYCLS = "method_by_cls = dict(zip((f.cls for f in alt_factories if f.cls is not None), alt_methods))"
+U_CONDS = {"len(method_by_cls) == len(alt_factories)": ".classesDistinct", "float not in method_by_cls": ".noFloatClass",
+           "not any((isinstance(x, CoercerMethod) for x in alt_methods))": ".noCoercerMethod"}
+U_ACTIONS = {"value_method = next((meth for fact, meth in zip(alt_factories, alt_methods) if fact.cls is not NoneType))\nreturn OptionalMethod(value_method, self.coercer)": ".optionalOfNonNone",
+             "return UnionByTypeMethod(method_by_cls)": ".byTypeTable", "return UnionMethod(alt_methods)": ".sequential"}
+
+
+def union_chain():
+    """the choice of union method in `DeserializationMethodVisitor.union` as tokens of Apimodel/UnionSrc.lean"""
+    tree = parse("deserialization/__init__.py")
+    cls = next((n for n in tree.body if isinstance(n, ast.ClassDef) and n.name == "DeserializationMethodVisitor"), None)
+    fn = next((n for n in (cls.body if cls else []) if isinstance(n, ast.FunctionDef) and n.name == "union"), None)
+    fac = next((n for n in (fn.body if fn else []) if isinstance(n, ast.FunctionDef) and n.name == "factory"), None)
+    if fac is None: return [('.unknown "no union().factory"', '.unknown ""')]
+    body = [st for st in fac.body if not (isinstance(st, ast.Expr) and isinstance(getattr(st, "value", None), ast.Constant))]
+    pre = [ast.unparse(st) for st in body[:-1]]
+    if pre != [U_ALT, U_BYCLS] or not isinstance(body[-1], ast.If):
+        return [(".otherwise", ".unknown " + ls("\n".join(ast.unparse(st) for st in body)))]
+    def guard(test):
+        src = ast.unparse(test)
+        if src == "NoneType in types and len(alt_methods) == 2": return ".noneInTypesAndTwo"
+        parts = test.values if isinstance(test, ast.BoolOp) and isinstance(test.op, ast.And) else [test]
+        conds = [U_CONDS.get(ast.unparse(v), ".unknown " + ls(ast.unparse(v))) for v in parts]
+        return ".conj [" + ", ".join(conds) + "]"
+    def action(stmts):
+        src = "\n".join(ast.unparse(st) for st in stmts)
+        return U_ACTIONS.get(src, ".unknown " + ls(src))
+    chain, node = [], body[-1]
+    while True:
+        chain.append((guard(node.test), action(node.body)))
+        if len(node.orelse) == 1 and isinstance(node.orelse[0], ast.If): node = node.orelse[0]; continue
+        if node.orelse: chain.append((".otherwise", action(node.orelse)))
+        break
+    return chain
+
+
+def fast_path_conditions():
+    """conjuncts of the tests that select the check-only / simple methods in collection(), mapping(), object()"""
+    tree = parse("deserialization/__init__.py")
+    cls = next((n for n in tree.body if isinstance(n, ast.ClassDef) and n.name == "DeserializationMethodVisitor"), None)
+    def conj(test):
+        if isinstance(test, ast.BoolOp) and isinstance(test.op, ast.And):
+            out = []
+            for v in test.values: out += conj(v)
+            return out
+        return [ast.unparse(test)]
+    out = []
+    for fn in (cls.body if cls else []):
+        if isinstance(fn, ast.FunctionDef) and fn.name in ("collection", "mapping", "object"):
+            for node in ast.walk(fn):
+                if isinstance(node, ast.If):
+                    body = "\n".join(ast.unparse(x) for x in node.body)
+                    if "CheckOnly" in body or "SimpleObjectMethod" in body:
+                        out.append((fn.name, conj(node.test), [ast.unparse(x).split("(")[0].replace("method = ", "").replace("return ", "") for x in node.body][-1]))
+    return out
+
+
 def error_templates():
     tree = parse("settings.py")
     out = []
@@ -202,12 +260,19 @@ def main():
     L.append("/-- `to_json_schema_2019_09` copies `prefixItems` instead of moving it -/")
     L.append(f"def keepsPrefixItems : Bool := {lb(keeps)}")
     L.append("def checkOnlyMethods : List String := [" + ", ".join(ls(s) for s in co) + "]")
+    L.append("/-- conjuncts of the tests selecting ListCheckOnlyMethod / MappingCheckOnly / SimpleObjectMethod: (visitor method, conjuncts, selected class) -/")
+    L.append("def fastPathConds : List (String × List String × String) := [\n  " +
+             ",\n  ".join(f"({ls(n)}, [" + ", ".join(ls(c) for c in cs) + f"], {ls(sel)})" for n, cs, sel in fast_path_conditions()) + "]")
     L += ["", "end Api.Generated", ""]
     changed |= write_if_changed(os.path.join(OUT, "Tables.lean"), "\n".join(L))
     C = ["import Apimodel.CoerceSrc", "/-! GENERATED by tools/extract.py from apischema/deserialization/coercion.py — do not edit -/", "namespace Api.Generated", "",
          "/-- the branches of `coerce(cls, data)` in source order -/", "def coerceChain : List (CGuard × CAction) := [\n  " +
          ",\n  ".join(f"({g}, {a})" for g, a in coerce_chain()) + "]", "", "end Api.Generated", ""]
     changed |= write_if_changed(os.path.join(OUT, "Coerce.lean"), "\n".join(C))
+    U = ["import Apimodel.UnionSrc", "/-! GENERATED by tools/extract.py from apischema/deserialization/__init__.py (DeserializationMethodVisitor.union) — do not edit -/",
+         "namespace Api.Generated", "", "/-- the choice of union method, in source order -/", "def unionChain : List (UGuard × UAction) := [\n  " +
+         ",\n  ".join(f"({g}, {a})" for g, a in union_chain()) + "]", "", "end Api.Generated", ""]
+    changed |= write_if_changed(os.path.join(OUT, "UnionSel.lean"), "\n".join(U))
     print("generated", "changed" if changed else "unchanged")
 
 
